@@ -8,7 +8,7 @@ import os
 from ..core import Ctx
 from ..match import Fact, arg, call_name, calls, fact_of, facts_at, has_fact, mentions, same_expr
 from ..match import local_defs as _match_local_defs
-from ..model import NOCONST, AnalysisError, ClassInfo, FuncInfo, chain, norm, parent, strip_cast, walk_no_nested
+from ..model import NOCONST, AnalysisError, ClassInfo, FuncInfo, chain, enclosing_function, norm, parent, strip_cast, walk_no_nested
 
 
 # ------------------------------------------------------------------------------------------ definitions of locals
@@ -44,13 +44,67 @@ def resolve(fi: FuncInfo, expr: ast.AST, depth: int = 4) -> ast.AST:
         depth -= 1
     return expr
 
+_match_calls = calls
+
+
+def _early_bound_callee(fi: FuncInfo, call: ast.Call) -> ast.AST | None:
+    """
+    The attribute path a call goes to when its callee was bound EARLY into a local: `f = self.a.m` ... `f(x)` (also as a
+    component of a tuple assignment `f, g = self.a.m, self.a.n`, or with only the receiver bound: `s = self.a` ...
+    `s.m(x)`)  ->  `self.a.m`, else None.  Reading `self.a.m` at the binding instead of at the call yields the same bound
+    method as long as no attribute on the path is re-bound in between; required here (conservatively): the local is
+    assigned exactly once, the path consists of names and attributes only and starts at a parameter that fi never
+    re-binds, and fi stores into no attribute that has the name of a component of the path.
+    """
+    f = call.func
+    base = f
+    while isinstance(base, ast.Attribute):
+        base = base.value
+    if not (isinstance(base, ast.Name) and base.id not in fi.params() and single_def(fi, base.id) is not None):
+        return None
+    x = _expand(fi, f)
+    attrs = []
+    root = x
+    while isinstance(root, ast.Attribute):
+        attrs.append(root.attr)
+        root = root.value
+    if not (attrs and isinstance(root, ast.Name) and _is_param_unmodified(fi, root.id)):
+        return None
+    for n in walk_no_nested(fi.node):
+        if isinstance(n, ast.Attribute) and isinstance(n.ctx, (ast.Store, ast.Del)) and n.attr in attrs:
+            return None
+    return x
+
+
+def calls(fi_or_node, pattern=None, nested: bool = False):
+    """match.calls, which additionally finds - when asked for a callee pattern in a function - the calls that go to a
+    matching attribute path through an early-bound local (see _early_bound_callee)"""
+    out = _match_calls(fi_or_node, pattern, nested)
+    if pattern is None or nested or not isinstance(fi_or_node, FuncInfo) or isinstance(fi_or_node.node, ast.Lambda):
+        return out
+    from ..match import _match_chain
+    extra = []
+    for c in _match_calls(fi_or_node):
+        if any(c is o for o in out):
+            continue
+        x = _early_bound_callee(fi_or_node, c)
+        if x is not None and _match_chain(chain(x), pattern):
+            extra.append(c)
+    if extra:
+        out = sorted([*out, *extra], key=lambda n: (n.lineno, n.col_offset))
+    return out
+
+
 LEVEL = "other"
 EXPLANATION = (
     "Static rules over every site: (a) in both authenticating decorators and _ez_unpack_auth the call of the user "
     "handler / the return is dominated by a positive signature verdict whose inputs are def-use linked to the datagram "
     "parameter and to the key unpacked from that datagram; (b) _verify_signature - and every override of it in an overlay "
     "class, which is what `self._verify_signature` dispatches to - verifies data[:-L] with data[-L:] and the key carried "
-    "in the datagram, L derived from that key; (c) the Peer handed on is built from that key only; "
+    "in the datagram, L derived from that key; (c) the Peer handed on is built from that key only - also in the handlers "
+    "that decode with _ez_unpack_auth themselves: every value of the peer they hand to a method of Network that takes a peer "
+    "first and writes membership (add_verified_peer, discover_services, ...) is Peer(K, addr) or the registry entry under K, "
+    "K the verified auth payload's public_key_bin (a network lookup that is not given K - by address - is not); "
     "(d) sign side covers the whole packet; (e) every handler registered by every overlay class (and every override in "
     "a subclass) keeps the authentication class frozen from the reviewed tree; (f) decode_map is dispatched only by "
     "Community.on_packet and __wrapped__ is never used; (g) Community.on_packet calls a decode_map handler only after "
@@ -1816,9 +1870,23 @@ def _vs_contract(ctx: Ctx) -> _VSContract:
     return vs
 
 
+def _is_self_vs(f) -> bool:
+    return isinstance(f, ast.Attribute) and f.attr == "_verify_signature" and isinstance(f.value, ast.Name) \
+        and f.value.id == "self"
+
+
 def _is_vs_call(e) -> bool:
-    return isinstance(e, ast.Call) and isinstance(e.func, ast.Attribute) and e.func.attr == "_verify_signature" \
-        and isinstance(e.func.value, ast.Name) and e.func.value.id == "self"
+    if not isinstance(e, ast.Call):
+        return False
+    if _is_self_vs(e.func):
+        return True
+    if isinstance(e.func, ast.Name):
+        # the bound method read early into a local: `verify = self._verify_signature` ... `verify(auth, data)`
+        fn = enclosing_function(e)
+        fi = getattr(fn, "_info", None) if fn is not None else None
+        if isinstance(fi, FuncInfo) and any(n is e for n in walk_no_nested(fn)):
+            return _is_self_vs(_early_bound_callee(fi, e))
+    return False
 
 
 def _verify_call_link(ctx: Ctx, fi: FuncInfo, name_expr: ast.AST, rule: str, site: ast.AST) -> tuple[ast.Call | None, int | None]:
@@ -2881,6 +2949,74 @@ def _peer_from_helper(ctx: Ctx, fi: FuncInfo, ver: "_Verified", peer_arg: ast.AS
     return True
 
 
+_PEER_REGISTRY = "self.network.verified_by_public_key_bin"
+
+
+def _peer_value_kind(ctx: Ctx, fi: FuncInfo, ver: "_Verified", e: ast.AST, depth: int = 2) -> tuple[str, str]:
+    """
+    Is e (expanded, one alternative of a Peer-valued expression of fi) the registry entry stored under the verified key
+    K = <verified auth>.public_key_bin or a fresh Peer built from K?  -> ('good' | 'bad' | 'unknown', why).
+    'bad' only for a value that is recognised as a peer obtained otherwise (a Peer built from another key, a registry /
+    network lookup that is not given K); anything that is not recognised is 'unknown'.
+    """
+    if isinstance(e, ast.Call) and chain(e.func) == "Peer":
+        k = arg(e, 0)
+        if not isinstance(_resolve_in_function(ctx, fi, "Peer"), ClassInfo):
+            return ("unknown", f"`Peer` in `{norm(e)}` is not the Peer class")
+        if k is not None and ver.is_key(k):
+            return ("good", "")
+        return ("bad", f"`{norm(e)}` is a Peer built from a key other than the verified auth payload's public_key_bin")
+    if isinstance(e, ast.Call) and chain(e.func) == _PEER_REGISTRY + ".get":
+        k = arg(e, 0)
+        if k is not None and ver.is_key(k):
+            return ("good", "") if len(e.args) == 1 and not e.keywords else ("unknown", f"`{norm(e)}` has a default")
+        return ("bad", f"`{norm(e)}` is the verified peer stored under another key than the one that verified the signature")
+    if isinstance(e, ast.Subscript) and chain(e.value) == _PEER_REGISTRY and not isinstance(e.slice, ast.Slice):
+        if ver.is_key(e.slice):                          # registry[K]: the same entry that .get(K) returns
+            return ("good", "")
+        return ("bad", f"`{norm(e)}` is the verified peer stored under another key than the one that verified the signature")
+    if isinstance(e, ast.Call) and depth > 0:
+        # a helper that resolves the sender: every value it can return, in this function's terms
+        cases = _return_cases(ctx, fi, e, 2)
+        kinds = []
+        if cases:
+            vals = [x for v, _, _ in cases for x in ([None] if v is None else _alternatives(fi, v))]
+            kinds = [("unknown", f"a value returned by `{norm(e.func)}`") if x is None
+                     else _peer_value_kind(ctx, fi, ver, _desugar_functional(fi, _expand(fi, x)), depth - 1) for x in vals]
+            if kinds and all(k[0] == "good" for k in kinds):
+                return ("good", "")
+        c = chain(_expand(fi, e.func)) or ""
+        if not kinds and c.startswith("self.network.") and c.count(".") == 2 and isinstance(e.func, ast.Attribute):
+            # a one-expression accessor of Network (`return self.verified_by_public_key_bin.get(public_key_bin)`): its
+            # value in this function's terms, with the accessor's self standing for self.network
+            net = ctx.repo.try_cls("Network", "ipv8/peerdiscovery/network.py")
+            h = net.lookup(e.func.attr) if net is not None else None
+            rv = _straight_line_return(h) if h is not None else None
+            if rv is not None and len([b for b in h.node.body if not (isinstance(b, ast.Expr) and isinstance(b.value, ast.Constant))]) == 1 \
+                    and not h.node.decorator_list:
+                bound = _bind_call(e, h, receiver=True)
+                hp = h.params()
+                if bound is not None and hp and _free_names(rv) <= set(hp) \
+                        and all(p in bound for p in _free_names(rv) if p != hp[0]):
+                    mapping = dict(bound)
+                    mapping[hp[0]] = _expand(fi, e.func.value)
+                    k = _peer_value_kind(ctx, fi, ver, _subst_names(rv, mapping), depth - 1)
+                    if k[0] == "good":
+                        return k
+                    kinds = [k]
+        if ".network." in "." + c and c.endswith("network." + c.rsplit(".", 1)[-1]) and not any(k[0] == "good" for k in kinds):
+            allargs = [*e.args, *[kw.value for kw in e.keywords]]
+            if not any(isinstance(a, ast.Starred) for a in allargs) and not any(kw.arg is None for kw in e.keywords) \
+                    and not any(ver.is_key(a) for a in allargs):
+                return ("bad", f"`{norm(e)}` looks the peer up in the network without the key that verified the signature "
+                               "(whoever is known under that address / criterion, not the signer)")
+        for k in kinds:
+            if k[0] == "bad":
+                return k
+        return ("unknown", f"`{norm(e)}`")
+    return ("unknown", f"`{norm(e)}`")
+
+
 def _peer_arg(ctx: Ctx, fi: FuncInfo, call: ast.Call, ver: "_Verified", addr_name: str, label: str, effective=None,
               _depth: int = 0, _site=None) -> None:
     """effective: the call as it is really made when `call` applies a functools.partial of the handler"""
@@ -2888,25 +3024,10 @@ def _peer_arg(ctx: Ctx, fi: FuncInfo, call: ast.Call, ver: "_Verified", addr_nam
     peer_arg = args[1] if len(args) >= 2 else None
     ok = False
     why = "the peer handed to the handler is not derived from the verified key"
-    registry = "self.network.verified_by_public_key_bin"
 
     def good_value(e, depth: int = 2) -> bool:
         """e (expanded) is the registry entry stored under the verified key or a fresh Peer built from the verified key"""
-        if isinstance(e, ast.Call) and chain(e.func) == "Peer":
-            k = arg(e, 0)
-            return k is not None and ver.is_key(k) and isinstance(_resolve_in_function(ctx, fi, "Peer"), ClassInfo)
-        if isinstance(e, ast.Call) and chain(e.func) == registry + ".get":
-            k = arg(e, 0)
-            return k is not None and ver.is_key(k) and len(e.args) == 1 and not e.keywords
-        if isinstance(e, ast.Subscript) and chain(e.value) == registry and not isinstance(e.slice, ast.Slice):
-            return ver.is_key(e.slice)                  # registry[K]: the same entry that .get(K) returns
-        if isinstance(e, ast.Call) and depth > 0:
-            # a helper that resolves the sender: every value it can return, in this function's terms
-            cases = _return_cases(ctx, fi, e, 2)
-            if cases:
-                vals = [x for v, _, _ in cases for x in ([None] if v is None else _alternatives(fi, v))]
-                return all(x is not None and good_value(_desugar_functional(fi, _expand(fi, x)), depth - 1) for x in vals)
-        return False
+        return _peer_value_kind(ctx, fi, ver, e, depth)[0] == "good"
 
     if peer_arg is not None and ver is not None and not isinstance(peer_arg, ast.Starred):
         # every value the argument can take (`a or b`, conditional expression, a local assigned on several branches)
@@ -2919,6 +3040,164 @@ def _peer_arg(ctx: Ctx, fi: FuncInfo, call: ast.Call, ver: "_Verified", addr_nam
     ctx.check(ok, "peer-from-auth-key", fi, _site if _site is not None else call,
               f"{label}: peer argument is verified_by_public_key_bin.get(K) / [K] or Peer(K, addr) with K = auth.public_key_bin",
               why)
+
+
+# ------------------------------------------------------------------------------- manual handlers: peer-from-auth-key
+_CONTAINER_WRITES = {"add", "append", "remove", "pop", "update", "discard", "setdefault", "clear", "insert", "extend", "popitem",
+                     "appendleft", "popleft", "move_to_end"}
+_NETWORK_FILE = "ipv8/peerdiscovery/network.py"
+
+
+def _network_peer_mutators(ctx: Ctx) -> dict[str, str]:
+    """{method name: name of its peer parameter} for the methods of Network whose first parameter is a Peer and that
+    write the membership state of the peer graph (a store into / a growing or shrinking call on an attribute of self,
+    directly or through another method of Network that does)"""
+    cached = getattr(ctx, "_c01_net_mutators", None)
+    if cached is not None:
+        return cached
+    net = ctx.repo.try_cls("Network", _NETWORK_FILE)
+    if net is None:
+        raise AnalysisError("anchor-lost: class Network")
+
+    def writes(m: FuncInfo, seen: tuple = ()) -> bool:
+        ps = m.params()
+        if not ps or isinstance(m.node, ast.Lambda):
+            return False
+        me = ps[0]
+
+        def on_self(x) -> bool:
+            while isinstance(x, (ast.Attribute, ast.Subscript)):
+                x = x.value
+            return isinstance(x, ast.Name) and x.id == me
+
+        for n in walk_no_nested(m.node):
+            if isinstance(n, (ast.Attribute, ast.Subscript)) and isinstance(n.ctx, (ast.Store, ast.Del)) and on_self(n):
+                return True
+            if isinstance(n, ast.AugAssign) and on_self(n.target):
+                return True
+            if isinstance(n, ast.Call) and isinstance(n.func, ast.Attribute):
+                f = n.func
+                if f.attr in _CONTAINER_WRITES and isinstance(f.value, (ast.Attribute, ast.Subscript)) and on_self(f.value):
+                    return True
+                if isinstance(f.value, ast.Name) and f.value.id == me and f.attr not in seen and f.attr != m.name:
+                    t = net.lookup(f.attr)
+                    if t is not None and not _is_reader_name(f.attr) and writes(t, (*seen, m.name)):
+                        return True
+        return False
+
+    out: dict[str, str] = {}
+    for name, m in sorted(net.methods.items()):
+        ps = m.params()
+        if len(ps) < 2 or _is_reader_name(name) or name.startswith("__") or isinstance(m.node, ast.Lambda):
+            continue
+        a = m.node.args
+        first = (a.posonlyargs + a.args)[1] if len(a.posonlyargs + a.args) > 1 else None
+        if first is None:
+            continue
+        ann = norm(first.annotation) if first.annotation is not None else ""
+        if not (first.arg == "peer" or "Peer" in ann):
+            continue
+        if writes(m):
+            out[name] = first.arg
+    if not out:
+        raise AnalysisError("anchor-lost: no method of Network registers a peer")
+    ctx._c01_net_mutators = out              # type: ignore[attr-defined]
+    return out
+
+
+def _manual_auth_functions(ctx: Ctx) -> list[FuncInfo]:
+    """functions (other than the wrappers and the definitions of _ez_unpack_auth) that obtain a verified auth payload by
+    calling _ez_unpack_auth, or a helper of this repository that does and hands out verified material only"""
+    skip = set()
+    for deco in sorted(AUTH_DECOS):
+        skip.add(id(_find_wrapper(ctx, deco)[0].node))
+    found: dict[int, FuncInfo] = {}
+    names = ["_ez_unpack_auth"]
+    seen_names = set(names)
+    for _round in range(3):
+        nxt = []
+        for nm in names:
+            for _m, g, _c in ctx.repo.callers_of_name(nm):
+                if g is None or isinstance(g.node, ast.Lambda) or g.name == "_ez_unpack_auth" or id(g.node) in skip \
+                        or id(g.node) in found:
+                    continue
+                found[id(g.node)] = g
+                if g.name not in seen_names and not g.name.startswith("__") and len(g.params()) >= 2 \
+                        and _unpacker_summary(ctx, g, replay=False) is not None:
+                    seen_names.add(g.name)
+                    nxt.append(g.name)
+        names = nxt
+        if not names:
+            break
+    return sorted(found.values(), key=lambda g: (g.module.relpath, g.qualname))
+
+
+def rule_manual_handlers(ctx: Ctx) -> None:
+    """
+    peer-from-auth-key for the handlers that decode by hand: a function that calls self._ez_unpack_auth(...) itself (no
+    lazy_wrapper builds the peer for it) and then registers the sender in the peer graph - self.network.add_verified_peer(p),
+    self.network.discover_services(p, ...), any method of Network that takes a peer first and writes membership - must hand
+    over the key that signed: every value p can take is Peer(K, addr) or the registry entry stored under K, with
+    K = <the verified auth payload>.public_key_bin.  `network.get_verified_by_address(addr) or Peer(K, addr)` registers /
+    credits whoever is verified at that ADDRESS - another key than the one the signature was verified under.
+    """
+    mutators = _network_peer_mutators(ctx)
+    n_sites = 0
+    for fi in _manual_auth_functions(ctx):
+        sites = []
+        for c in calls(fi):
+            f = c.func
+            if not (isinstance(f, ast.Attribute) and f.attr in mutators):
+                continue
+            ch = chain(_expand(fi, f)) or ""
+            if not (".network." in "." + ch and ch.endswith("network." + f.attr)):
+                continue
+            sites.append(c)
+        if not sites:
+            continue
+        cfg = ctx.cfg(fi)
+        cands = []
+        for p in fi.params()[1:]:
+            if _is_param_unmodified(fi, p) and _unpacker_calls(ctx, fi, p, replay=False):
+                cands.append(p)
+        if len(cands) != 1:
+            raise AnalysisError(f"undecided: {fi.qualname} registers a peer next to _ez_unpack_auth, but which of its parameters "
+                                f"is the verified datagram cannot be read ({cands})")
+        data_name = cands[0]
+        for c in sites:
+            if not any(cfg.reachable(n) for n in cfg.nodes_for(c)):
+                continue
+            pname = mutators[c.func.attr]
+            peer_arg = _kw_or_pos(c, 0, pname)
+            if peer_arg is None or isinstance(peer_arg, ast.Starred) or any(kw.arg is None for kw in c.keywords) \
+                    or any(isinstance(a, ast.Starred) for a in c.args):
+                raise AnalysisError(f"undecided: {fi.qualname}: the peer argument of `{norm(c)}` cannot be read")
+            ver = _dominating_unpacker(ctx, fi, cfg, c, data_name)
+            if ver is None:
+                ver = _dominating_verdict_helper(ctx, fi, _site_facts(ctx, fi, cfg, c), data_name)
+            if ver is None:
+                raise AnalysisError(f"undecided: {fi.qualname}: `{norm(c)}` is not dominated by the completion of the "
+                                    "_ez_unpack_auth call(s) of the function")
+            n_sites += 1
+            alts = _alternatives(fi, peer_arg)
+            kinds = [(alt, _peer_value_kind(ctx, fi, ver, _desugar_functional(fi, _expand(fi, alt)))) for alt in alts]
+            bad = [(alt, k) for alt, k in kinds if k[0] == "bad"]
+            unknown = [(alt, k) for alt, k in kinds if k[0] == "unknown"]
+            if not bad and unknown:
+                if _peer_from_helper(ctx, fi, ver, peer_arg, "", fi.name, 0):
+                    unknown = []
+                else:
+                    raise AnalysisError(f"undecided: {fi.qualname}: cannot read where the peer given to `{norm(c)}` comes from "
+                                        f"({unknown[0][1][1]})")
+            ctx.check(not bad, "peer-from-auth-key", fi, c,
+                      f"{fi.qualname}: the peer handed to network.{c.func.attr} is Peer(K, addr) / verified_by_public_key_bin.get(K) "
+                      "/ [K] with K = public_key_bin of the auth payload verified by _ez_unpack_auth",
+                      (f"{fi.qualname} verifies the signature under the key carried in the datagram but registers "
+                       f"`{norm(bad[0][0])}` with network.{c.func.attr}: {bad[0][1][1]} - the identity the handler acts on is "
+                       "not the key the signature was verified under") if bad else "")
+    ctx.instance("peer-from-auth-key", _NETWORK_FILE,
+                 f"{n_sites} registration(s) of a peer by functions that decode with _ez_unpack_auth themselves examined "
+                 f"(network mutators: {', '.join(sorted(mutators))})", nontrivial=n_sites > 0)
 
 
 # ------------------------------------------------------------------------------------------ effects before the verdict
@@ -4059,6 +4338,179 @@ def _without_suppress(ctx: Ctx, fi: FuncInfo) -> FuncInfo:
     return nfi
 
 
+_PURE_BUILTINS = ("len", "bool", "isinstance", "int", "bytes", "tuple")
+
+
+def _pure_expr(fi: FuncInfo, e: ast.AST) -> bool:
+    """evaluating e twice in a row yields the same value and has no effect: names, constants, attribute / subscript
+    reads, comparisons, boolean / arithmetic operators and len()/bool()/isinstance()/... of such"""
+    for n in ast.walk(e):
+        if isinstance(n, ast.Call):
+            if not (isinstance(n.func, ast.Name) and n.func.id in _PURE_BUILTINS and _builtin_chain(fi, n.func) == n.func.id) \
+                    or n.keywords or any(isinstance(a, ast.Starred) for a in n.args):
+                return False
+        elif not isinstance(n, (ast.Name, ast.Constant, ast.Attribute, ast.Subscript, ast.Slice, ast.Compare, ast.BoolOp,
+                                ast.UnaryOp, ast.BinOp, ast.Tuple, ast.expr_context, ast.cmpop, ast.boolop, ast.unaryop,
+                                ast.operator)):
+            return False
+    return True
+
+
+def _bool_valued(fi: FuncInfo, e: ast.AST) -> bool:
+    """e evaluates to True or False (never another object): not X, bool(X), is / in tests, comparisons of len()s and
+    integer constants, ==/!= of subscripts / slices / names / attributes (builtin bytes, ints, strings, None, tuples:
+    the values this repository compares), and/or of such"""
+    e = strip_cast(e)
+    if isinstance(e, ast.Constant):
+        return isinstance(e.value, bool)
+    if isinstance(e, ast.UnaryOp) and isinstance(e.op, ast.Not):
+        return True
+    if isinstance(e, ast.BoolOp):
+        return all(_bool_valued(fi, v) for v in e.values)
+    if isinstance(e, ast.Compare):
+        return True
+    if isinstance(e, ast.Call) and isinstance(e.func, ast.Name) and e.func.id in ("bool", "isinstance", "callable") \
+            and _builtin_chain(fi, e.func) == e.func.id:
+        return True
+    return False
+
+
+def _without_match(ctx: Ctx, fi: FuncInfo) -> FuncInfo:
+    """
+    fi, or - when it has `match (e0, e1, ...):` statements over a tuple DISPLAY whose cases are fixed-length sequence
+    patterns of values / singletons / captures / wildcards / or-patterns (or a bare wildcard) - a copy in which each such
+    statement is the if/elif chain the language executes for it: the elements are evaluated once, left to right
+    (`_m_i = e_i`), then the first case whose sub-patterns all match runs (`x == V` for a value pattern, `x is S` for a
+    singleton, a capture binds and always matches).  A display of n elements always matches the length test of an
+    n-pattern and never that of another length.  Where an element is a pure expression the tests are written over the
+    element itself instead of `_m_i` (same value: nothing runs between the evaluation and the tests); `x is True` over
+    an element that can only be True or False is written `x`, `x is False` as `not x`.  A guard that reads a capture of
+    its own case, star / mapping / class patterns, a non-display subject: the statement is left as it is (the CFG then
+    lets every case be entered without a fact, which loses guards but invents none).
+    The engine's load-time normaliser does this only for displays of plain names.
+    """
+    from ..model import clone, parent, set_parents
+    if isinstance(fi.node, ast.Lambda) or not any(isinstance(n, ast.Match) for n in walk_no_nested(fi.node)):
+        return fi
+    cache = getattr(ctx, "_c01_nomatch", None)
+    if cache is None:
+        cache = ctx._c01_nomatch = {}       # type: ignore[attr-defined]
+    if id(fi.node) in cache:
+        return cache[id(fi.node)][1]
+    new = clone(fi.node)
+    counter = [0]
+    changed = [False]
+
+    def sub_pattern(p, ref, boolish):
+        """(condition | None, captures) of one sub-pattern against the element denoted by ref, None: not expressible"""
+        if isinstance(p, ast.MatchValue):
+            return ast.Compare(left=clone(ref), ops=[ast.Eq()], comparators=[clone(p.value)]), []
+        if isinstance(p, ast.MatchSingleton):
+            if boolish and p.value is True:
+                return clone(ref), []
+            if boolish and p.value is False:
+                return ast.UnaryOp(op=ast.Not(), operand=clone(ref)), []
+            return ast.Compare(left=clone(ref), ops=[ast.Is()], comparators=[ast.Constant(value=p.value)]), []
+        if isinstance(p, ast.MatchAs) and p.pattern is None:
+            return None, ([(p.name, clone(ref))] if p.name else [])
+        if isinstance(p, ast.MatchAs):
+            r = sub_pattern(p.pattern, ref, boolish)
+            if r is None:
+                return None
+            return r[0], r[1] + ([(p.name, clone(ref))] if p.name else [])
+        if isinstance(p, ast.MatchOr):
+            conds = []
+            for q in p.patterns:
+                r = sub_pattern(q, ref, boolish)
+                if r is None or r[1]:
+                    return None
+                if r[0] is None:
+                    return None, []
+                conds.append(r[0])
+            return ast.BoolOp(op=ast.Or(), values=conds), []
+        return None
+
+    def desugar(st: ast.Match):
+        subj = st.subject
+        if not isinstance(subj, ast.Tuple) or any(isinstance(x, ast.Starred) for x in subj.elts):
+            return None
+        k = counter[0]
+        counter[0] += 1
+        pre, refs, boolish = [], [], []
+        for i, x in enumerate(subj.elts):
+            if isinstance(x, (ast.Name, ast.Constant)):
+                refs.append(x)
+            else:
+                tmp = f"_m{k}_{i}"
+                pre.append(ast.copy_location(ast.Assign(targets=[ast.Name(id=tmp, ctx=ast.Store())], value=x), st))
+                refs.append(x if _pure_expr(fi, x) else ast.Name(id=tmp, ctx=ast.Load()))
+            boolish.append(_bool_valued(fi, x))
+        arms = []
+        for c in st.cases:
+            p = c.pattern
+            conds, caps = [], []
+            if isinstance(p, ast.MatchAs) and p.pattern is None and p.name is None:
+                pass
+            elif isinstance(p, ast.MatchSequence) and not any(isinstance(q, ast.MatchStar) for q in p.patterns):
+                if len(p.patterns) != len(refs):
+                    continue                          # can never match a display of this length
+                for q, ref, b in zip(p.patterns, refs, boolish):
+                    r = sub_pattern(q, ref, b)
+                    if r is None:
+                        return None
+                    if r[0] is not None:
+                        conds.append(r[0])
+                    caps += r[1]
+            else:
+                return None
+            if c.guard is not None:
+                if caps:
+                    return None
+                conds.append(c.guard)
+            cond = None if not conds else conds[0] if len(conds) == 1 else ast.BoolOp(op=ast.And(), values=conds)
+            body = [ast.copy_location(ast.Assign(targets=[ast.Name(id=n_, ctx=ast.Store())], value=v), c.body[0])
+                    for n_, v in caps] + c.body
+            arms.append((cond, body))
+        if not arms:
+            return None
+        tail: list = []
+        for cond, body in reversed(arms):
+            tail = body if cond is None else [ast.copy_location(ast.If(test=cond, body=body, orelse=tail), st)]
+        return pre + (tail or [ast.copy_location(ast.Pass(), st)])
+
+    def rewrite_block(stmts: list) -> list:
+        out = []
+        for st in stmts:
+            for f in ("body", "orelse", "finalbody"):
+                v = getattr(st, f, None)
+                if isinstance(v, list) and v and isinstance(v[0], ast.stmt) \
+                        and not isinstance(st, (ast.FunctionDef, ast.AsyncFunctionDef, ast.ClassDef)):
+                    setattr(st, f, rewrite_block(v))
+            for h in getattr(st, "handlers", []) or []:
+                h.body = rewrite_block(h.body)
+            for c in getattr(st, "cases", []) or []:
+                c.body = rewrite_block(c.body)
+            r = desugar(st) if isinstance(st, ast.Match) else None
+            if r is None:
+                out.append(st)
+            else:
+                changed[0] = True
+                out.extend(r)
+        return out
+
+    new.body = rewrite_block(new.body)
+    if not changed[0]:
+        cache[id(fi.node)] = (fi.node, fi)
+        return fi
+    ast.fix_missing_locations(new)
+    set_parents(new)
+    new._parent = parent(fi.node)         # type: ignore[attr-defined]
+    nfi = FuncInfo(fi.name, fi.qualname, new, fi.module, fi.cls)
+    new._info = nfi                       # type: ignore[attr-defined]
+    cache[id(fi.node)] = (fi.node, nfi)
+    return nfi
+
+
 def rule_is_valid_signature(ctx: Ctx) -> None:
     fi = _without_suppress(ctx, ctx.repo.method("ECCrypto", "is_valid_signature", "ipv8/keyvault/crypto.py"))
     cfg = ctx.cfg(fi)
@@ -4727,6 +5179,15 @@ def rule_handler_table(ctx: Ctx) -> None:
     ctx.floor("handler-auth.authenticated", n_auth, 25)
 
 
+def _reads_table(fi: FuncInfo, e: ast.AST, table: str) -> bool:
+    """does e mention the table - as written, or after replacing single-assignment locals by what they were bound to
+    (`handlers = self.decode_map` ... `handlers[msg_id]`: the same table object, read early)"""
+    if mentions(e, table):
+        return True
+    x = _expand(fi, e)
+    return x is not e and x is not None and mentions(x, table)
+
+
 def _dispatch_sites(ctx: Ctx, fi: FuncInfo, cfg) -> list[tuple[ast.Call, list[ast.AST]]]:
     """
     Where fi invokes a handler taken from decode_map: [(call in fi, the argument expressions - in fi's terms - that the
@@ -4739,12 +5200,12 @@ def _dispatch_sites(ctx: Ctx, fi: FuncInfo, cfg) -> list[tuple[ast.Call, list[as
         nodes = cfg.nodes_for(c)
         if not nodes:
             continue
-        direct = any(mentions(a, "self.decode_map") for a in _alternatives(fi, c.func))
+        direct = any(_reads_table(fi, a, "self.decode_map") for a in _alternatives(fi, c.func))
         fsel = _selector(c.func)
         if not direct and (isinstance(c.func, ast.Name) or (
                 fsel is not None and isinstance(strip_cast(fsel[0]), ast.Name) and strip_cast(fsel[0]).id not in fi.params()
                 and local_defs(fi, strip_cast(fsel[0]).id))):
-            direct = any(v is not None and mentions(v, "self.decode_map")
+            direct = any(v is not None and _reads_table(fi, v, "self.decode_map")
                          for v, _, _ in _value_cases(ctx, fi, cfg, nodes[0], c.func))
         if direct:
             out.append((c, list(c.args)))
@@ -4780,12 +5241,12 @@ def _dispatch_sites(ctx: Ctx, fi: FuncInfo, cfg) -> list[tuple[ast.Call, list[as
             own_map = f"{me}.decode_map"
             for c2 in calls(t):
                 f2 = strip_cast(c2.func)
-                from_map = any(mentions(a, own_map) for a in _alternatives(t, c2.func))
+                from_map = any(_reads_table(t, a, own_map) for a in _alternatives(t, c2.func))
                 from_param = False
                 if isinstance(f2, ast.Name) and _is_param_unmodified(t, f2.id) and f2.id in bound:
                     given = bound[f2.id]
-                    from_param = any(mentions(a, "self.decode_map") for a in _alternatives(fi, given)) or \
-                        any(v is not None and mentions(v, "self.decode_map")
+                    from_param = any(_reads_table(fi, a, "self.decode_map") for a in _alternatives(fi, given)) or \
+                        any(v is not None and _reads_table(fi, v, "self.decode_map")
                             for v, _, _ in _value_cases(ctx, fi, cfg, nodes[0], given))
                 if not (from_map or from_param):
                     continue
@@ -4852,7 +5313,7 @@ def rule_own_prefix(ctx: Ctx) -> None:
     dominated by `self._prefix == D[:22]` (or D.startswith(self._prefix)) for the very bytes D handed to the handler.
     """
     repo = ctx.repo
-    top = repo.method("Community", "on_packet", "ipv8/community.py")
+    top = _without_match(ctx, repo.method("Community", "on_packet", "ipv8/community.py"))
     top_cfg = ctx.cfg(top)
     hsites = _dispatch_sites(ctx, top, top_cfg)
     ctx.anchor(hsites, "call of a decode_map handler in Community.on_packet")
@@ -5274,6 +5735,13 @@ def run(ctx: Ctx) -> None:
     rule_handler_table(ctx)
     rule_own_prefix(ctx)
     rule_no_bypass(ctx)
+    # last: what this rule cannot read (a manual handler whose decoding another rule has just reported as broken - its
+    # _ez_unpack_auth no longer verifies, its fallback no longer authenticates) must not hide that report behind `undecided`
+    try:
+        rule_manual_handlers(ctx)
+    except AnalysisError:
+        if not ctx.findings:
+            raise
     ctx.assume("signature primitive (libnacl / OpenSSL keys behind Key.verify) is unforgeable: trusted")
     ctx.assume("Serializer.unpack_serializable decodes BinMemberAuthenticationPayload as a 2-byte length + key (C02 covers the codec)")
 
@@ -6005,3 +6473,14 @@ _ROUND5B_WITNESSES = [
      "file": _LC, "rule": "sign-covers-all", "old": _EZ_PACK_OLD, "new": _PACK5 % ("parts", "*parts[1:], signature")},
 ]
 WITNESSES += _ROUND5B_WITNESSES
+
+# ---- round 6: peer-from-auth-key for the handlers that decode with _ez_unpack_auth themselves (manual handlers)
+_DC = "ipv8/peerdiscovery/community.py"
+_ROUND6_WITNESSES = [
+    {"name": "round 6: manual handler registers whoever is verified at the source address instead of the signer (C01-m17)",
+     "file": _DC, "rule": "peer-from-auth-key",
+     "old": "        peer = Peer(auth.public_key_bin, source_address)\n        self.network.add_verified_peer(peer)\n",
+     "new": "        peer = self.network.get_verified_by_address(source_address) or Peer(auth.public_key_bin, source_address)\n"
+            "        self.network.add_verified_peer(peer)\n"},
+]
+WITNESSES += _ROUND6_WITNESSES
